@@ -4,6 +4,7 @@ import OsuProofs.EstPSD
 import OsuProofs.NewtonRotation
 import OsuProofs.JacobianRotation
 import OsuProofs.StepEquivariant
+import OsuProofs.NewtonMirror
 import OsuProofs.MemRotation
 /-
 C06 — estimators reproduce the input moments; solvers agree; the Jacobian is the derivative of
@@ -279,6 +280,31 @@ theorem newton_rotates_exact {N : ℕ} [NeZero N] (solve : List (List ℝ) → L
       mem2Newton solve atol maxIter lsDepth (rotLam (phiR k) [a1, b1, a2, b2]) (gridDelta N Δ) (gridT (N := N) θ0)
         = List.ofFn (Osu.Rot.rotE k D) :=
   mem2Newton_rot_exact solve atol maxIter lsDepth θ0 Δ hΔ k hE a1 b1 a2 b2
+
+/-! ### mirror image (`b1, b2 ↦ −b1, −b2`; `D(θ) ↦ D(−θ)`), uniform grids starting at 0 -/
+
+/-- MEM: the value of mirrored moments at `θ` is the value of the original moments at `−θ`, and MEM
+with its discrete normalisation mirrors on the grid -/
+theorem mem_mirrors {N : ℕ} [NeZero N] (a1 b1 a2 b2 : ℝ) :
+    memF (fun j : Fin N => memRawAt a1 (-b1) a2 (-b2) (thetaR (N := N) 0 j))
+      = Osu.Rot.mirE (memF (fun j : Fin N => memRawAt a1 b1 a2 b2 (thetaR (N := N) 0 j))) :=
+  mem_grid_mirror a1 b1 a2 b2
+
+/-- the `approximate` variant mirrors with its input -/
+theorem approximate_mirrors {N : ℕ} [NeZero N] (Δ a1 b1 a2 b2 : ℝ) :
+    distF (fun j : Fin N => ipOf (initialValue a1 (-b1) a2 (-b2)) (twiddleCol (thetaR (N := N) 0 j))) Δ
+      = Osu.Rot.mirE (distF (fun j : Fin N => ipOf (initialValue a1 b1 a2 b2) (twiddleCol (thetaR (N := N) 0 j))) Δ) :=
+  approximate_mirror Δ a1 b1 a2 b2
+
+/-- MEM2 / Newton with an exact linear solver mirrors with its input (`J(Sλ) = S J(λ) S`, the
+constraint function commutes with the mirror, the line search makes identical decisions) -/
+theorem newton_mirrors_exact {N : ℕ} [NeZero N] (solve : List (List ℝ) → List ℝ → List ℝ) (atol : ℝ) (maxIter lsDepth : ℕ)
+    (Δ : ℝ) (hΔ : 0 < Δ) (hE : ExactSolve (N := N) solve 0 Δ) (a1 b1 a2 b2 : ℝ) :
+    ∃ D : Fin N → ℝ,
+      mem2Newton solve atol maxIter lsDepth [a1, b1, a2, b2] (gridDelta N Δ) (gridT (N := N) 0) = List.ofFn D ∧
+      mem2Newton solve atol maxIter lsDepth [a1, -b1, a2, -b2] (gridDelta N Δ) (gridT (N := N) 0)
+        = List.ofFn (Osu.Rot.mirE D) :=
+  mem2Newton_mirror_exact solve atol maxIter lsDepth Δ hΔ hE a1 b1 a2 b2
 
 /-! non-vacuity: the hypotheses of the theorems above are met by concrete inputs -/
 example : (∀ d ∈ ([1, 1, 1] : List ℝ), 0 < d) ∧ ([[1, 0, 1, 0], [0, 1, -1, 0], [-1, 0, 1, 0]] : List (List ℝ)) ≠ [] ∧
